@@ -46,27 +46,33 @@ func storageExhaustiveStream(cfg *Config) *hx.Stats {
 		}})
 		ops = append(ops, op{"get " + hx.IDStr(id), func(e *storEnv) {
 			e.w.L("ST get id=%s", hx.IDStr(id))
-			s, _, err := e.ps.Retrieve(id)
-			if err != nil {
-				e.w.L("OBS err:%s", hx.ErrKind(err))
-			} else {
-				e.w.L("OBS slab:%s", slabVer(s))
-			}
+			before := e.snap()
+			s, found, err := e.ps.Retrieve(id)
+			e.w.L("OBS %s", readObs(s, found, err))
+			e.cacheEffect("Retrieve", id, before, s, found, err, true, true)
 		}})
 		ops = append(ops, op{"getloaded " + hx.IDStr(id), func(e *storEnv) {
 			e.w.L("ST getloaded id=%s", hx.IDStr(id))
-			e.w.L("OBS slab:%s", slabVer(e.ps.RetrieveIfLoaded(id)))
+			before := e.snap()
+			s := e.ps.RetrieveIfLoaded(id)
+			e.w.L("OBS slab:%s", slabVer(s))
+			want, ok := before.deltas[id]
+			if !ok {
+				want = before.cache[id]
+			}
+			if s != want {
+				e.violation("C15", fmt.Sprintf("RetrieveIfLoaded(%s) = version %s, the write set / cache hold version %s", hx.IDStr(id), slabVer(s), slabVer(want)))
+			}
+			e.noTrace(fmt.Sprintf("RetrieveIfLoaded(%s)", hx.IDStr(id)), before, false)
 		}})
 		for _, c := range []int{0, 1} {
 			c := c
 			ops = append(ops, op{fmt.Sprintf("getnodelta %s %d", hx.IDStr(id), c), func(e *storEnv) {
 				e.w.L("ST getnodelta id=%s cache=%d", hx.IDStr(id), c)
-				s, _, err := e.ps.RetrieveIgnoringDeltas(id, c == 1)
-				if err != nil {
-					e.w.L("OBS err:%s", hx.ErrKind(err))
-				} else {
-					e.w.L("OBS slab:%s", slabVer(s))
-				}
+				before := e.snap()
+				s, found, err := e.ps.RetrieveIgnoringDeltas(id, c == 1)
+				e.w.L("OBS %s", readObs(s, found, err))
+				e.cacheEffect("RetrieveIgnoringDeltas", id, before, s, found, err, false, c == 1)
 			}})
 		}
 	}
